@@ -164,7 +164,7 @@ fn reported_for(e: &crate::rt::Execution, a: &Arc, c: u8) -> bool {
 }
 
 vharness! {
-    /// @prop C11,C10 @tier quick @mode fast @cost 2 @funcs Arc::ref_inc,Arc::branch,Ref::branch_action,Execution::schedule,arc::State::set_last_access @bounds 2 threads, count 1..3, all clock values, thread 1 acting
+    /// @prop C11,C10 @tier thorough @mode fast @cost 2 @funcs Arc::ref_inc,Arc::branch,Ref::branch_action,Execution::schedule,arc::State::set_last_access @bounds 2 threads, count 1..3, all clock values, thread 1 acting
     /// clone: the count grows by one, no view is transferred; the clone is a dependent access for a following inspection and for nothing else.
     #[cfg_attr(kani, kani::unwind(8))]
     fn arc_clone_t1() {
@@ -238,7 +238,7 @@ vharness! {
 }
 
 vharness! {
-    /// @prop C11 @tier quick @mode fast @cost 2 @funcs Arc::strong_count,Synchronize::sync_load @bounds 2 threads, count 1..3, all clock values, thread 0 acting
+    /// @prop C11 @tier thorough @mode fast @cost 2 @funcs Arc::strong_count,Synchronize::sync_load @bounds 2 threads, count 1..3, all clock values, thread 0 acting
     /// strong_count returns the modelled count, leaves it alone, and is a dependent access for following clones and drops (both orders get explored).
     #[cfg_attr(kani, kani::unwind(8))]
     fn arc_strong_count_t0() {
@@ -291,7 +291,7 @@ vharness! {
 }
 
 vharness! {
-    /// @prop C10,C11 @tier quick @mode fast @cost 2 @funcs Arc::ref_dec @bounds 2 threads, count 1..3; the dropping thread 1 is pre-empted at its scheduling point, thread 0 clones meanwhile
+    /// @prop C10,C11 @tier thorough @mode fast @cost 2 @funcs Arc::ref_dec @bounds 2 threads, count 1..3; the dropping thread 1 is pre-empted at its scheduling point, thread 0 clones meanwhile
     /// drop is atomic with respect to the count: it reports "last handle" from the count at the time it takes effect, not from the count when it was first scheduled.
     #[cfg_attr(kani, kani::unwind(8))]
     fn arc_drop_preempted_t1() {
